@@ -225,4 +225,33 @@ def restoreArray (n : Nat) (limit : Int) : SzR := allocateArray (n : Nat) limit
 /-- restore_variable of a mapping text with n distinct keys: `if (++count > MAX) mapping_too_large ()` per pair -/
 def restoreMapping (n : Nat) (limit : Int) : SzR := mapInsertMany 0 n limit
 
+/-! ### regexp matching is charged against the evaluation cost (lib/efuns/regexp.c regexec, fix of round 5) -/
+
+/-- regexec (): `steps` node visits are needed; the budget is `cost * REGEXP_STEPS_PER_TICK` visits (cost > 1) or one tick's
+    worth; returns (eval_cost afterwards, node visits made) -/
+def regexCharge (cost : Int) (steps : Nat) : Int × Nat :=
+  let ticks : Int := if cost > 1 then cost else 1
+  let budget : Nat := (ticks * regexpStepsPerTick).toNat
+  let made := min steps budget
+  let used : Int := ((made / regexpStepsPerTick : Nat) : Int)
+  (if cost > 1 then (if used ≥ cost - 1 then 1 else cost - used) else cost, made)
+
+/-- node visits of "(a|aa)*b" against "a" * n + "cb": at least the Fibonacci number (each position is reached from the one and
+    from the two before it), at most 16 times the one three further on -/
+def fibAux : Nat → Nat × Nat
+  | 0 => (1, 1)
+  | n + 1 => ((fibAux n).2, (fibAux n).1 + (fibAux n).2)
+
+def fibN (n : Nat) : Nat := (fibAux n).1
+
+def rxLower (n : Nat) : Nat := fibN n
+def rxUpper (n : Nat) : Nat := 16 * fibN (n + 3)
+
+/-- outcome of an evaluation that makes this one match and returns: `some true` = the budget is certainly used up (the next
+    instruction raises the error), `some false` = it certainly is not, `none` = between the two bounds -/
+def rxExpires (n : Nat) (cost : Int) : Option Bool :=
+  if rxLower n ≥ (cost * regexpStepsPerTick).toNat then some true
+  else if (rxUpper n : Int) + 100 * regexpStepsPerTick < (cost - 100) * regexpStepsPerTick then some false
+  else none
+
 end NV.C04
